@@ -65,7 +65,7 @@ structure Negotiated (typ : DType) (m : MSec) (t : Transceiver) : Prop where
   mid : t.mid = some m.mid
   kind : t.kind = m.kind
   remoteSet : t.remoteSet = true
-  codecs : ∃ prefs, filterPreferred (findCommon (codecsOf m.kind) m.codecs) prefs = .ok t.codecs
+  codecs : filterPreferred (findCommon (codecsOf m.kind) m.codecs) t.preferred = .ok t.codecs
   nonempty : t.codecs ≠ []
   exts : t.exts = findCommonExt (extsOf m.kind) m.exts
   cur : typ = .answer → t.currentDirection = some (revDir m.direction)
@@ -84,7 +84,7 @@ theorem negotiateTransceiver_spec {typ : DType} {t t' : Transceiver} {m : MSec} 
     · rename_i hne
       cases h
       simp only [matchesSec, Bool.and_eq_true, beq_iff_eq, Bool.or_eq_true] at hm
-      refine ⟨⟨?_, hm.1, rfl, ⟨t.preferred, hc⟩, ?_, rfl, ?_, ?_⟩, rfl, rfl, rfl, ?_, ?_, ?_, ?_⟩
+      refine ⟨⟨?_, hm.1, rfl, hc, ?_, rfl, ?_, ?_⟩, rfl, rfl, rfl, ?_, ?_, ?_, ?_⟩
       · rcases hm.2 with h1 | h1
         · cases ht : t.mid <;> simp_all
         · simp [h1]
@@ -104,6 +104,18 @@ theorem createTransceiver_transceivers (pc : Pc) (d : Dir) (k : Kind) (tr : Bool
   unfold Pc.createTransceiver
   split <;> exact ⟨_, rfl, rfl, rfl, rfl⟩
 
+theorem createSctp_frame (pc : Pc) :
+    pc.createSctp.transceivers = pc.transceivers ∧ pc.createSctp.slots = pc.slots ∧ pc.createSctp.seenMids = pc.seenMids := by
+  unfold Pc.createSctp
+  split <;> exact ⟨rfl, rfl, rfl⟩
+
+theorem ensureSctp_frame (pc : Pc) :
+    pc.ensureSctp.transceivers = pc.transceivers ∧ pc.ensureSctp.slots = pc.slots ∧ pc.ensureSctp.seenMids = pc.seenMids := by
+  unfold Pc.ensureSctp
+  split
+  · exact ⟨rfl, rfl, rfl⟩
+  · exact createSctp_frame pc
+
 theorem modTransport_transceivers (pc : Pc) (id : Nat) (f : Transport → Transport) :
     (pc.modTransport id f).transceivers = pc.transceivers := rfl
 
@@ -117,6 +129,7 @@ theorem applyRemoteSec_media {typ : DType} {pc pc' : Pc} {i : Nat} {m : MSec}
       updFirst (matchesSec m) (fun _ => t') ts0 = some pc'.transceivers := by
   unfold applyRemoteSec at h
   simp only [hk, if_true] at h
+  unfold applyRemoteMedia at h
   split at h
   · cases h
   · rename_i t hfind
@@ -128,12 +141,13 @@ theorem applyRemoteSec_media {typ : DType} {pc pc' : Pc} {i : Nat} {m : MSec}
         cases h
         refine ⟨_, t, t', ?_, hfind, hneg, ?_⟩
         · by_cases hany : pc.transceivers.any (matchesSec m) = true
-          · left; simp [hany]
+          · left; simp [Pc.ensureTransceiver, Pc.seeMid, hany]
           · right
             have hany' : pc.transceivers.any (matchesSec m) = false := by simpa using hany
-            obtain ⟨n, hn, h1, h2, h3⟩ := createTransceiver_transceivers { pc with seenMids := setAdd pc.seenMids m.mid } .recvonly m.kind false
+            obtain ⟨n, hn, h1, h2, h3⟩ := createTransceiver_transceivers (pc.seeMid m.mid) .recvonly m.kind false
             refine ⟨hany', n, ?_, h1, h2, h3⟩
-            simp only [hany', Bool.false_eq_true, if_false]
+            have : (pc.seeMid m.mid).transceivers.any (matchesSec m) = false := hany'
+            simp only [Pc.ensureTransceiver, this, Bool.false_eq_true, if_false]
             exact hn
         · rw [modTransport_transceivers]; exact hupd
     · cases h
@@ -143,19 +157,13 @@ theorem applyRemoteSec_media {typ : DType} {pc pc' : Pc} {i : Nat} {m : MSec}
 theorem applyRemoteSec_app {typ : DType} {pc pc' : Pc} {i : Nat} {m : MSec}
     (h : applyRemoteSec typ pc i m = .ok pc') (hk : m.kind.isMedia = false) : pc'.transceivers = pc.transceivers := by
   unfold applyRemoteSec at h
-  simp only [hk] at h
-  simp only [Bool.false_eq_true, if_false] at h
+  simp only [hk, Bool.false_eq_true, if_false] at h
+  unfold applyRemoteApp at h
   split at h
   · cases h
   · cases h
     rw [modTransport_transceivers]
-    simp only
-    split
-    · rfl
-    · unfold Pc.createSctp
-      split
-      · rfl
-      · rfl
+    exact (ensureSctp_frame (pc.seeMid m.mid)).1
 
 /-! ## regime 1: the description's mids are new to this connection -/
 
